@@ -560,6 +560,7 @@ def decide_case(case, opts):
     t0 = time.time()
     sc.CTX.reset()
     sc.CTX.xr_axioms = bool(getattr(case, "xr_axioms", False))      # C09: ground axioms for exp/log atoms in every query
+    sc.CTX.xr_marks = getattr(case, "xr_marks", None)
     rng = random.Random((opts.seed * 1000003) ^ (hash_sig(case.sig) & 0xFFFFFFF))
     stats = {"runs": 0, "coverage_queries": 0, "tie_runs": 0}
     q0, s0 = lw.STATS["queries"], lw.STATS["solver_s"]
